@@ -1943,11 +1943,13 @@ func (p *Peer) waitcondition(ctx context.Context, waitChan chan struct{}, req *R
 			continue
 		}
 
-		// get object to watch
+		// get object to watch, the rows are updated concurrently
 		found := false
+		store.lock.RLock()
 		if req.WaitObject != "" {
 			obj, ok := store.GetWaitObject(req)
 			if !ok {
+				store.lock.RUnlock()
 				logWith(p, req).Warnf("WaitObject did not match any object: %s", req.WaitObject)
 				safeCloseWaitChannel(waitChan)
 
@@ -1963,6 +1965,7 @@ func (p *Peer) waitcondition(ctx context.Context, waitChan chan struct{}, req *R
 		} else if p.waitConditionTableMatches(store, req.WaitCondition) {
 			found = true
 		}
+		store.lock.RUnlock()
 
 		// invert wait condition logic
 		if req.WaitConditionNegate {
